@@ -3,6 +3,7 @@ package main
 // gowp check -property Cxx [-tier quick|thorough]: the registered check of one property.
 
 import (
+	"sync"
 	"os/exec"
 	"encoding/json"
 	"flag"
@@ -385,16 +386,29 @@ func cmdCheck(args []string) {
 			muts, _ := filepath.Glob(filepath.Join(vdir, "selftest", "mutants", *prop+"_*.diff"))
 			sort.Strings(muts)
 			caught, missed := 0, []string{}
-			for _, m := range muts {
-				cmd := exec.Command(filepath.Join(vdir, "selftest", "mutant.sh"), m, "check", "-property", *prop, "-tier", "quick")
-				cmd.Env = append(os.Environ(), "VERIF_SCRATCH="+filepath.Join(os.TempDir(), fmt.Sprintf("gowp-selftest-%d", os.Getpid())))
-				out, _ := cmd.CombinedOutput()
-				if strings.Contains(string(out), "VIOLATION property="+*prop) {
-					caught++
-				} else {
-					missed = append(missed, filepath.Base(m))
-				}
+			var mu sync.Mutex
+			var wg sync.WaitGroup
+			sem := make(chan struct{}, 3)
+			for mi, m := range muts {
+				wg.Add(1)
+				sem <- struct{}{}
+				go func(mi int, m string) {
+					defer wg.Done()
+					defer func() { <-sem }()
+					cmd := exec.Command(filepath.Join(vdir, "selftest", "mutant.sh"), m, "check", "-property", *prop, "-tier", "quick")
+					cmd.Env = append(os.Environ(), "VERIF_SCRATCH="+filepath.Join(os.TempDir(), fmt.Sprintf("gowp-selftest-%d-%d", os.Getpid(), mi)))
+					out, _ := cmd.CombinedOutput()
+					mu.Lock()
+					if strings.Contains(string(out), "VIOLATION property="+*prop) {
+						caught++
+					} else {
+						missed = append(missed, filepath.Base(m))
+					}
+					mu.Unlock()
+				}(mi, m)
 			}
+			wg.Wait()
+			sort.Strings(missed)
 			selftest = map[string]interface{}{"mutants": len(muts), "caught": caught, "missed": missed}
 			if len(missed) > 0 {
 				fmt.Printf("SELFTEST: %d of %d deliberately broken variants of the code were not reported by this check: %v\n", len(missed), len(muts), missed)
